@@ -11,6 +11,8 @@
 import ALV.Lemmas.C18Round
 import ALV.Lemmas.C18Norm
 import ALV.Lemmas.C18Surj
+import ALV.Lemmas.C18Res
+import ALV.Model.C18Riff
 import ALV.Common.Audit
 
 namespace ALV.Props.C18
@@ -137,6 +139,139 @@ theorem wav_lazy_and_closed (channels sw fs : Nat) (data : Bytes) (k : Nat) :
 
 example : (wavTake 1 2 2 2 ⟨[1, 0, 2, 0], [], false⟩).2.closed = false
     ∧ (wavTake 1 2 2 3 ⟨[1, 0, 2, 0], [], false⟩).2.closed = true := by decide
+
+
+/-! ## the file life-cycle (resource clause: "the file is closed once the stream is exhausted")
+
+  Handle table of the process = `pre` (whatever exists before the call, the caller's own file object
+  included) followed by what the stream opens.  `g` is the complete run of the stream as the value
+  model computes it (`(wavStream f keep).gen`); a history is any list of `next()` calls and
+  collections of the stream object. -/
+
+section resources
+variable {β : Type} (g : Gen β WavErr)
+
+/-- **C18.17** a stream opened BY NAME, any history: the stream opened exactly one handle (the table is
+`pre ++ [h]`, so every other handle of the process is untouched); `close()` reached it at most once
+and it is never abandoned to the runtime (no ResourceWarning); it is open iff nobody closed it; once
+a `next()` returned StopIteration or raised a decoding error — the stream object still alive — or
+once the stream object was collected, it is closed, by exactly one `close()`, and `getfp()` is None;
+before that it is open (never closed early). -/
+theorem res_name_closed_exactly_once (pre : List Handle) (evs : List Ev) :
+    ∃ s0, construct .name true pre = .ok s0 ∧
+      let r := rRun g false evs s0
+      ∃ h, r.2.handles = pre ++ [h] ∧ h.owner = .stream ∧ h.closeCalls ≤ 1 ∧ h.abandoned = false
+        ∧ (h.isOpen = true ↔ h.closeCalls = 0)
+        ∧ ((ended r.1 = true ∨ Ev.collect ∈ evs) → h.isOpen = false ∧ h.closeCalls = 1 ∧ r.2.wr.fp = false)
+        ∧ ((ended r.1 = false ∧ Ev.collect ∉ evs) → h.isOpen = true ∧ r.2.wr.fp = true) := by
+  refine ⟨openSt pre 0 false, construct_name_ok pre, ?_⟩
+  rcases rRun_open g pre evs 0 false with ⟨p, st, h1, h2, h3⟩ | ⟨p, st, d, h1, h2⟩
+  · refine ⟨hOpen, by rw [h1]; rfl, rfl, by decide, rfl, by decide, ?_, ?_⟩
+    · rintro (h | h)
+      · rw [h2] at h; cases h
+      · exact absurd h h3
+    · intro _; rw [h1]; exact ⟨rfl, rfl⟩
+  · refine ⟨hClosed, by rw [h1]; rfl, rfl, by decide, rfl, by decide, ?_, ?_⟩
+    · intro _; rw [h1]; exact ⟨rfl, rfl, rfl⟩
+    · rintro ⟨ha, hb⟩
+      rcases h2 with h2 | h2
+      · rw [ha] at h2; cases h2
+      · exact absurd h2 hb
+
+/-- non-vacuity: three samples read by name; after the 4th `next()` the handle is closed once, and
+the later collection (`Wave_read.__del__` calls `close()` again) does not close it a second time -/
+example : (rRun (⟨[1, 2, 3], none⟩ : Gen Nat WavErr) false [.next, .next, .next, .next, .next, .collect]
+      (openSt [Handle.fresh .caller] 0 false)).2.handles
+    = [Handle.fresh .caller, ⟨.stream, false, 1, false⟩] := by decide
+example : (rRun (⟨[1, 2, 3], none⟩ : Gen Nat WavErr) false [.next, .next, .next]
+      (openSt [] 0 false)).2.handles = [⟨.stream, true, 0, false⟩] := by decide
+/-- a truncated file: the decoding error closes the file as well -/
+example : (rRun (⟨[1], some .structLen⟩ : Gen Nat WavErr) false [.next, .next] (openSt [] 0 false))
+    = ([.item 1, .raised .structLen], closedSt [] 1 true false) := by decide
+
+/-- **C18.18** a stream over a file object of the caller or over `io.BytesIO`: no history (not even
+the excluded early error) opens, closes or abandons any handle — the caller's handle is left to the
+caller, as `wave` documents. -/
+theorem res_caller_handle_untouched (src : Source) (hs : src = .fileObj ∨ src = .memory) (early : Bool)
+    (pre : List Handle) (evs : List Ev) :
+    ∃ s0, construct src true pre = .ok s0 ∧ (rRun g early evs s0).2.handles = pre := by
+  rcases hs with rfl | rfl
+  · exact ⟨_, rfl, rRun_no_handle g early evs _ rfl rfl⟩
+  · exact ⟨_, rfl, rRun_no_handle g early evs _ rfl rfl⟩
+
+example : (rRun (⟨[1, 2], none⟩ : Gen Nat WavErr) false [.next, .next, .next, .collect]
+    ⟨0, false, false, false, ⟨true, none⟩, none, [Handle.fresh .caller]⟩).2.handles = [Handle.fresh .caller] := by
+  decide
+
+/-- **C18.19** a constructor that raises leaves no open handle of its own behind: by name the file it
+opened is closed explicitly, never abandoned (`close()` reaches it twice: the `except` clause of
+`Wave_read.__init__`, then `__del__` of the half-built object, on the already closed file — observed
+on the real code), every other way nothing was opened; a name kind `wave.open` refuses opens nothing. -/
+theorem res_open_failure (pre : List Handle) :
+    construct .name false pre = .error (pre ++ [⟨.stream, false, 2, false⟩])
+      ∧ construct .fileObj false pre = .error pre ∧ construct .memory false pre = .error pre
+      ∧ ∀ ok, construct .refusedName ok pre = .error pre :=
+  ⟨construct_name_fail pre, rfl, rfl, fun _ => rfl⟩
+
+/-- **C18.20** values and resources are one machine: `k` successive `next()` calls on a freshly
+constructed stream (any source) show the first `k` items of `g`, then — once — how `g` ends
+(StopIteration or the decoding error), then StopIteration for ever (a generator dies at its first
+exception). -/
+theorem res_next_values (src : Source) (early : Bool) (pre : List Handle) (s0 : RS)
+    (h0 : construct src true pre = .ok s0) (k : Nat) :
+    (rRun g early (List.replicate k Ev.next) s0).1 = expectObs g k := by
+  have hfresh : s0.pos = 0 ∧ s0.dead = false ∧ s0.dropped = false := by
+    cases src <;> simp [construct] at h0 <;> subst h0 <;> exact ⟨rfl, rfl, rfl⟩
+  have := rRun_nexts_obs g early k s0 hfresh.2.1 hfresh.2.2
+  rw [this, hfresh.1]
+  simp [expectObs]
+
+example : expectObs (⟨[7, 8], some .structLen⟩ : Gen Nat WavErr) 5
+    = [.item 7, .item 8, .raised .structLen, .stop, .stop] := by decide
+
+/-- **C18.22** the point C18.17 excludes (`early`: the error is raised before the reader chain exists —
+`_unpackers[bits]` KeyError for a header whose sample width is not 8/16/24/32): the stream is
+finished after its first `next()`, but the file opened by name STAYS OPEN until the stream object is
+collected; the collection then closes it exactly once.  (Observed on the real code as well.) -/
+theorem res_early_error_keeps_file_open (e : WavErr) (pre : List Handle) (n : Nat) :
+    let g : Gen β WavErr := ⟨[], some e⟩
+    (rRun g true (List.replicate (n + 1) Ev.next) (openSt pre 0 false)).2.handles = pre ++ [hOpen]
+      ∧ (rRun g true (List.replicate (n + 1) Ev.next ++ [Ev.collect]) (openSt pre 0 false)).2.handles
+          = pre ++ [hClosed] := by
+  have step : rNext (⟨[], some e⟩ : Gen β WavErr) true (openSt pre 0 false)
+      = (.raised e, { openSt pre 0 false with started := true, dead := true }) := by
+    simp [rNext, openSt, endObs]
+  have stay : ∀ (m : Nat) (tl : List Ev),
+      (rRun (⟨[], some e⟩ : Gen β WavErr) true (List.replicate m Ev.next ++ tl)
+        { openSt pre 0 false with started := true, dead := true }).2
+      = (rRun (⟨[], some e⟩ : Gen β WavErr) true tl
+        { openSt pre 0 false with started := true, dead := true }).2 := by
+    intro m tl
+    induction m with
+    | zero => rfl
+    | succ m ih =>
+      simp only [List.replicate_succ, List.cons_append, rRun]
+      simpa [rNext, openSt] using ih
+  refine ⟨?_, ?_⟩
+  · have := stay n []
+    simp only [List.append_nil] at this
+    simp only [List.replicate_succ, rRun, step]
+    simp only [openSt, Bool.false_eq_true, if_false] at this ⊢
+    rw [this]; rfl
+  · have := stay n [Ev.collect]
+    simp only [List.replicate_succ, List.cons_append, rRun, step]
+    simp only [openSt, Bool.false_eq_true, if_false] at this ⊢
+    rw [this]
+    simp [rRun, rCollect, wrClose, modifyAt_append_length, hOpen, hClosed, Handle.close, Handle.dealloc]
+
+end resources
+
+/-- **C18.21** for the four widths of the property the stream never ends by the early error, so
+C18.17 (`early = false`) is about every 8/16/24/32-bit file, truncated ones included. -/
+theorem wav_no_early_error {K : Type} [IntCast K] [Div K] (bits : Nat)
+    (hb : bits = 8 ∨ bits = 16 ∨ bits = 24 ∨ bits = 32) (keep : Bool) (samples : List Bytes) :
+    (dataGenerator (K := K) bits keep samples).err ≠ some .noUnpacker :=
+  dataGenerator_no_early bits hb keep samples
 
 /-! ## chunks -/
 
@@ -267,6 +402,136 @@ theorem ieee_bytes_exact (w : Nat) (o : Order) (u : Nat) (hu : u < 2 ^ (8 * w)) 
   exact Int.emod_eq_of_lt (by omega) this
 
 example : leBytes 4 (0x3FC00000 : Nat) = [0x00, 0x00, 0xC0, 0x3F] := by decide   -- 1.5f
+
+/-! ## the other integer formats of the struct table (B H I l L q Q) and the spelling of a value -/
+
+/-- **C18.23** unsigned formats: `unpack(pack(v)) = v` on the FULL range `0 ≤ v < 2^(8w)` of every
+width `w` (B H I Q and the two sizes of L are w = 1, 2, 4, 8), both byte orders; outside it
+`pack` refuses. -/
+theorem unpack_pack_uint (w : Nat) (o : Order) (v : Int) :
+    (inURange w v → ∃ bs, packUInt w o v = .ok bs ∧ bs.length = w ∧ unpackUInt w o bs = some v)
+      ∧ (¬ inURange w v → packUInt w o v = .error .range) := by
+  refine ⟨fun h => ⟨orderBytes o (leBytes w v), ?_, ?_, ?_⟩, fun h => ?_⟩
+  · simp [packUInt, packUIntLE, h, Except.map]
+  · rw [orderBytes_length, leBytes_length]
+  · unfold unpackUInt
+    rw [if_pos (by rw [orderBytes_length, leBytes_length]), orderBytes_orderBytes, leValue_leBytes, pow256]
+    exact congrArg some (Int.emod_eq_of_lt h.1 h.2)
+  · simp [packUInt, packUIntLE, h, Except.map]
+
+example : packUInt 2 .big 65535 = .ok [0xFF, 0xFF] ∧ inURange 2 65535 ∧ ¬ inURange 2 65536 ∧ ¬ inURange 2 (-1) := by
+  decide
+
+/-- **C18.24** unsigned formats through both chunk strategies: for in-range integers they succeed,
+agree, and unpack to the sequence followed by the pad values — every width, byte order, machine
+order, size and length (the unsigned twin of C18.14). -/
+theorem chunks_roundtrip_uint (w : Nat) (hw : 0 < w) (native order : Order) (size : Nat) (hs : 0 < size)
+    (pad : Int) (xs : List Int) (hr : ∀ v ∈ pad :: xs, inURange w v) :
+    let s := chunksStruct order (packUIntLE w) size pad xs
+    chunksArray native order (packUIntLE w) 0 size pad xs = s
+      ∧ s.err = none
+      ∧ (∀ c ∈ s.out, c.length = size * w)
+      ∧ unpackSeq (unpackUInt w order) w s.out.flatten
+          = some (xs ++ List.replicate (padLen size xs.length) pad) := by
+  have hok : ∀ v ∈ pad :: xs, packUIntLE w v = .ok (leBytes w v) := by
+    intro v hv; simp [packUIntLE, hr v hv]
+  have hlen : ∀ v ∈ pad :: xs, (leBytes w v).length = w := fun v _ => leBytes_length w v
+  have hz : packUIntLE w 0 = .ok (leBytes w 0) := by
+    have : inURange w 0 := ⟨Int.le_refl 0, Int.pow_pos (by omega)⟩
+    simp [packUIntLE, this]
+  refine ⟨chunks_array_eq_struct native order _ 0 _ hz size hs pad xs,
+    (chunks_concat order _ (leBytes w) w size hs pad xs hok hlen).1,
+    (chunks_concat order _ (leBytes w) w size hs pad xs hok hlen).2.2.1,
+    chunks_roundtrip order _ (leBytes w) (unpackUInt w order) w size hw hs pad xs hok hlen ?_⟩
+  intro v hv
+  obtain ⟨bs, hp, _, hu⟩ := (unpack_pack_uint w order v).1 (hr v hv)
+  have : bs = orderBytes order (leBytes w v) := by
+    simp [packUInt, packUIntLE, hr v hv, Except.map] at hp; exact hp.symm
+  rw [← this]; exact hu
+
+example : (chunksStruct .big (packUIntLE 2) 3 0 [65535, 256, 1, 5]).out
+    = [[0xFF, 0xFF, 1, 0, 0, 1], [0, 5, 0, 0, 0, 0]] := by rfl
+
+/-- **C18.25** the encoder the driver runs, by format and by SPELLING of the value: signed / unsigned
+integer formats take ints and bools (`True` is 1) through `packIntLE` / `packUIntLE` and refuse a
+float or a Fraction — even an integral one; the float formats take every spelling through its
+`float()`.  So C18.14 / C18.24 are about the very function the tie executes. -/
+theorem leElem_spellings (strict : Bool) (w : Nat) (v : Int) (b : Bool) (x : Float) :
+    leElem strict (.s w) (.int v) = packIntLE w v ∧ leElem strict (.u w) (.int v) = packUIntLE w v
+      ∧ leElem strict (.u w) (.bool b) = packUIntLE w (if b then 1 else 0)
+      ∧ leElem strict .h (.bool b) = packIntLE 2 (if b then 1 else 0)
+      ∧ leElem strict (.u w) (.flt x) = .error .notInt ∧ leElem strict (.s w) (.frac x) = .error .notInt
+      ∧ leElem strict .d (.frac x) = leElem strict .d (.flt x)
+      ∧ leElem strict .f (.frac x) = leElem strict .f (.flt x) :=
+  ⟨rfl, rfl, rfl, rfl, rfl, rfl, rfl, rfl⟩
+
+/-! ## laziness of the chunk generators (endless sources) -/
+
+/-- **C18.26** one whole block in, one chunk out: for a sequence that starts with `size` items the
+first chunk is the packed block (or the generator stops at the item that cannot be packed) and what
+follows are the chunks of the REST — whatever the rest is.  By induction the first `k` chunks
+depend on the first `k·size` items only, which is what taking `k` chunks from an endless source
+observes; both strategies (C18.10). -/
+theorem chunks_block_step (order : Order) (le : α → Except ε Bytes) (size : Nat) (hs : 0 < size) (pad : α)
+    (blk rest : List α) (h : blk.length = size) :
+    chunksStruct order le size pad (blk ++ rest) =
+      match packSeq (encOrder order le) blk with
+      | .error e => ⟨[], some e⟩
+      | .ok b => (chunksStruct order le size pad rest).cons b := by
+  rw [chunksStruct_eq_spec order le size hs pad (blk ++ rest), chunksStruct_eq_spec order le size hs pad rest]
+  unfold chunksSpec
+  have hp : padded size pad (blk ++ rest) = blk ++ padded size pad rest := by
+    unfold padded
+    rw [List.length_append, h, padLen_add, List.append_assoc]
+  rw [hp, splitEvery_cons_block size hs blk _ h, genMap]
+  cases packSeq (encOrder order le) blk <;> rfl
+
+example : (chunksStruct .little (packIntLE 1) 2 0 ([1, 2] ++ [3, 4, 5])).out
+    = [1, 2] :: (chunksStruct .little (packIntLE 1) 2 0 [3, 4, 5]).out := by rfl
+
+/-! ## the header (`rate`, `channels`, `bits` mirror the header) -/
+
+/-- **C18.27** `bits` is `8 · sampwidth` with `sampwidth = ⌈header bits / 8⌉`: for a header width that
+is a multiple of 8 — the four widths of the property — `bits` IS the header field; any other width
+is rounded up to the next multiple of 8 (observed on the real code: a 12-bit header gives `bits = 16`). -/
+theorem bits_mirror_header (hb : Nat) :
+    (8 ∣ hb → 8 * headerSampwidth hb = hb)
+      ∧ hb ≤ 8 * headerSampwidth hb ∧ 8 * headerSampwidth hb < hb + 8 := by
+  unfold headerSampwidth
+  refine ⟨fun ⟨k, hk⟩ => by omega, by omega, by omega⟩
+
+example : headerSampwidth 24 = 3 ∧ headerSampwidth 12 = 2 ∧ (wavStream ⟨2, headerSampwidth 12, 8000, []⟩ true : WavObs Rat).bits = 16 := by
+  decide
+
+/-- **C18.28** a file shorter than the 8 bytes of a RIFF header is refused with EOFError, and a file
+whose first four bytes are not `RIFF` with wave.Error — before anything else is looked at. -/
+theorem riff_refuses (file : Bytes) :
+    (file.length < 8 → parseRiff file = .error .eof)
+      ∧ (8 ≤ file.length → file.take 4 ≠ idRIFF → parseRiff file = .error .waveError) := by
+  refine ⟨fun h => ?_, fun h hne => ?_⟩
+  · unfold parseRiff
+    by_cases h4 : (file.take 4).length < 4
+    · rw [if_pos h4]
+    · rw [if_neg h4, if_pos (by simp only [List.length_take, List.length_drop]; omega)]
+  · unfold parseRiff
+    rw [if_neg (by simp only [List.length_take]; omega),
+      if_neg (by simp only [List.length_take, List.length_drop]; omega), if_pos hne]
+
+/-- non-vacuity and the reader at work: a stereo 16-bit file with a LIST chunk of odd size before
+`fmt ` and another chunk after `data` is read back exactly (header fields and data chunk) -/
+example : parseRiff (buildRiff [(([0x4C, 0x49, 0x53, 0x54] : Bytes), [1, 2, 3])] [] [(([0x69, 0x64, 0x33, 0x20] : Bytes), [9])]
+    2 8000 16 [1, 0, 2, 0, 0xFF, 0x7F, 0, 0x80]) = .ok ⟨2, 2, 8000, [1, 0, 2, 0, 0xFF, 0x7F, 0, 0x80]⟩ := by rfl
+
+-- PENDING
+/-- every well-formed file is read back exactly: any extra chunks (names other than `fmt ` and `data`)
+before `fmt `, between `fmt ` and `data`, after `data`, odd sizes padded.  Checked on every generated
+file by the tie (the driver parses the bytes the real `wave` module is given); not proved. -/
+def riff_parse_build_PENDING : Prop :=
+  ∀ (pre mid post : List (Bytes × Bytes)) (channels rate bits : Nat) (data : Bytes),
+    (∀ c ∈ pre ++ mid, c.1.length = 4 ∧ c.1 ≠ idFmt ∧ c.1 ≠ idData) → (∀ c ∈ post, c.1.length = 4) →
+    0 < channels → channels < 2 ^ 16 → rate < 2 ^ 32 → 0 < bits → bits < 2 ^ 16 →
+    (buildRiff pre mid post channels rate bits data).length < 2 ^ 32 →
+    parseRiff (buildRiff pre mid post channels rate bits data) = .ok ⟨channels, headerSampwidth bits, rate, data⟩
 
 end ALV.Props.C18
 
